@@ -643,4 +643,96 @@ theorem sizes_allocTryWith {L : Layout} {off vsize : Nat} {ok : Bool} {inner : O
 
 end ops
 
+/-! ## every operation -/
+
+/-- C10, the clause that is not part of `Inv`: every covered operation of the model keeps the chunk sizes
+    strictly increasing along the chunk list (all 34 constructors of `Op`) -/
+theorem sizes_stepCore {g g' : GState} {op : Op} {out : Out} (hcov : op.Covered) (h : Inv cfg g)
+    (hr : RespsOK cfg g.s) (hsz : SizesIncreasing g.s) (hs : stepCore cfg g op = .ok (g', out)) :
+    SizesIncreasing g'.s := by
+  have hc := h.cfgOK
+  have i := h.szInv hr hsz
+  cases op with
+  | newWithSize n => exact sizes_newWithSize hsz hs
+  | newWithCapacity L => exact sizes_newWithCapacity hsz hs
+  | newUnallocated => exact sizes_newUnallocated hsz hs
+  | drop => exact sizes_drop hsz hs
+  | allocate L z via => exact sizes_allocate hc i hs
+  | deallocate b via => exact sizes_deallocate hsz hs
+  | grow b L z via => exact sizes_grow hc i hs
+  | shrink b L via => exact sizes_shrink h hr hsz hs
+  | allocLayout L hh => exact sizes_allocLayout hc i hs
+  | shrinkSlice b n => exact sizes_shrinkSlice hsz hs
+  | prepare L => exact sizes_prepare hc i hs
+  | commit size rev => exact sizes_commit hsz hs
+  | prepareSlice esize ealign minCap rev =>
+    have hp : Rs.is_power_of_two ealign = true := by simpa [Op.Covered, Op.covered] using hcov
+    exact sizes_prepareSlice hp hc i hs
+  | fillPrepared len seed => exact sizes_fillPrepared hsz hs
+  | commitSlice len => exact sizes_commitSlice hsz hs
+  | abandonPrepared => exact sizes_abandonPrepared hsz hs
+  | reserve n dyn => exact sizes_reserve hc i hs
+  | scopeEnter => exact sizes_scopeEnter hsz hs
+  | scopeExit => exact sizes_scopeExit hsz hs
+  | checkpoint k => exact sizes_checkpoint hsz hs
+  | resetTo k => exact sizes_resetTo hsz hs
+  | reset => exact sizes_reset hsz hs
+  | resetToStart => exact sizes_resetToStart hsz hs
+  | claim => exact sizes_claim hsz hs
+  | claimEnd => exact sizes_claimEnd hsz hs
+  | onClaimed op' => exact sizes_onClaimed hsz hs
+  | alignedEnter n => exact sizes_alignedEnter hsz hs
+  | alignedExit => exact sizes_alignedExit hsz hs
+  | scopedAlignedEnter n => exact sizes_scopedAlignedEnter hsz hs
+  | scopedAlignedExit => exact sizes_scopedAlignedExit hsz hs
+  | withSettings n ga cl => exact sizes_withSettings hsz hs
+  | allocTryWith L off vsize ok inner mut_ =>
+    have hsma : L.align ∣ L.size := by
+      have : L.size % L.align = 0 := by simpa [Op.Covered, Op.covered] using hcov
+      exact Nat.dvd_of_mod_eq_zero this
+    exact sizes_allocTryWith hsma hc i hs
+  | write b seed => exact sizes_write hsz hs
+  | split b at_ => exact sizes_split hsz hs
+
+/-- the same for `step` (which installs the base-allocator responses of the step first) -/
+theorem sizes_step {g g' : GState} {op : Op} {resps : List BaseResp} {out : Out} {reqs : List BaseReq}
+    (hcov : op.Covered) (h : Inv cfg g) (henv : EnvOK cfg g resps) (hsz : SizesIncreasing g.s)
+    (hs : step cfg g op resps = .ok (g', out, reqs)) : SizesIncreasing g'.s := by
+  unfold step at hs
+  simp only [bind, Except.bind, pure, Except.pure] at hs
+  split at hs
+  · cases hs
+  · rename_i x hx
+    obtain ⟨g1, o1⟩ := x
+    simp only at hs
+    split at hs
+    · cases hs
+    · cases hs
+      exact sizes_stepCore hcov (h.install resps) henv.1 (hsz.congr rfl) hx
+
+/-! ## non-vacuity: the hypotheses of `sizes_stepCore` hold for the creation of an arena in a block of
+    496 bytes, and for an allocation that needs a second chunk -/
+
+/-- the initial state with one response installed -/
+def exSizesG : GState := install (initG exCfg) [.granted 0x10000 496]
+
+example : (Op.newWithSize 512).Covered := by decide
+
+example : Inv exCfg exSizesG := (inv_init exCfg_ok).install _
+
+theorem exSizesG_resps : RespsOK exCfg exSizesG.s := by
+  intro r hr
+  simp only [exSizesG, install, List.mem_singleton] at hr
+  subst hr
+  exact ⟨by decide, by decide, by decide⟩
+
+theorem exSizesG_sizes : SizesIncreasing exSizesG.s := (C10.initState_inv exCfg_ok).2.1.congr rfl
+
+set_option maxRecDepth 100000 in
+theorem exSizesG_step : ∃ g' out, stepCore exCfg exSizesG (.newWithSize 512) = .ok (g', out) := ⟨_, _, rfl⟩
+
+example : ∃ g' out, stepCore exCfg exSizesG (.newWithSize 512) = .ok (g', out) ∧ SizesIncreasing g'.s := by
+  obtain ⟨g', out, hs⟩ := exSizesG_step
+  exact ⟨g', out, hs, sizes_stepCore (by decide) ((inv_init exCfg_ok).install _) exSizesG_resps exSizesG_sizes hs⟩
+
 end Arena.Hist
